@@ -1,7 +1,8 @@
 //! C35 — snippet slices are valid, ordered, bounded ranges.
 //! impl: memvid_core::verif_hooks::compute_snippet_slices (= lex::compute_snippet_slices), in-process
 //! under `guarded`; model: drv_c35 `slices 1 …` (the code with fixes/C35.diff; `slices 0 …` = the code
-//! as found, used only to label a disagreement); oracle: the property's clauses on the real output.
+//! as found, used only to label a disagreement; `slicesc 1 …` = the char-level transcription, must equal
+//! `slices 1 …`); oracle: the property's clauses on the real output.
 use memvid_core::verif_hooks::compute_snippet_slices;
 use mvh::*;
 
@@ -89,7 +90,7 @@ const WORDS: &[&str] = &["memory", "video", "frame", "search", "index", "the", "
 const SEPS: &[&str] = &[" ", " ", " ", "  ", "\t", ", ", "; ", " — ", "\u{a0}", "\u{3000}", "\u{2028}", "\r\n", "\u{b}", "\u{c}", "-"];
 const ENDS: &[&str] = &[". ", ".", "! ", "? ", "?!", "...", ".\n", "\n", "\n\n", ".  \t ", "。", "！", ".\u{a0}", ".x", "!\r\n"];
 
-fn gen_text(rng: &mut Rng, thorough: bool, sum: &mut Summary) -> String {
+fn gen_text(rng: &mut Rng, thorough: bool, dense: bool, sum: &mut Summary) -> String {
     let style = rng.below(16);
     let target = match style {
         0 => 0,
@@ -97,8 +98,9 @@ fn gen_text(rng: &mut Rng, thorough: bool, sum: &mut Summary) -> String {
         2 | 3 => rng.usize(1, 40),
         _ => rng.usize(20, if thorough { 2500 } else { 700 }),
     };
+    let target = if dense { target.max(200) } else { target };
     let mut s = String::new();
-    let (p_end, p_multi) = match rng.below(5) {
+    let (p_end, p_multi) = match if dense { 1 } else { rng.below(5) } {
         0 => (0, 3),     // no sentence breaks at all
         1 => (6, 1),     // dense punctuation
         2 => (2, 8),     // multibyte heavy
@@ -188,20 +190,55 @@ fn gen_occ(rng: &mut Rng, text: &str, sum: &mut Summary) -> Vec<(usize, usize)> 
 }
 
 fn gen_case(rng: &mut Rng, thorough: bool, sum: &mut Summary) -> Case {
-    let text = gen_text(rng, thorough, sum);
+    let dense = rng.chance(1, 4);     // many short sentences + small window: several separate slices
+    let text = gen_text(rng, thorough, dense, sum);
     let occ = gen_occ(rng, &text, sum);
-    let window = match rng.below(12) {
+    let window = match rng.below(16) {
         0 => 0,
         1 => 1,
-        2 => rng.usize(2, 5),
-        3 => 80,
-        4 => 160,
-        5 => 400,
-        6 => if rng.chance(1, 3) { *rng.pick(&[usize::MAX, usize::MAX - 1, usize::MAX / 2 + 1, 1 << 40]) } else { rng.usize(0, 400) },
+        2 | 3 => rng.usize(2, 9),
+        4 | 5 => rng.usize(10, 40),
+        6 => 80,
+        7 => 160,
+        8 => 400,
+        9 => if rng.chance(1, 3) { *rng.pick(&[usize::MAX, usize::MAX - 1, usize::MAX / 2 + 1, 1 << 40]) } else { rng.usize(0, 400) },
         _ => rng.usize(0, 400),
     };
-    let max = match rng.below(10) { 0 => 0, 1 => 1, 9 => if rng.chance(1, 3) { usize::MAX } else { 5 }, _ => rng.usize(0, 5) };
+    let window = if dense && rng.chance(3, 4) { rng.usize(0, 12) } else { window };
+    let max = match rng.below(20) { 0 => 0, 1 | 2 => 1, 19 => if rng.chance(1, 3) { usize::MAX } else { 5 }, _ => rng.usize(1, 5) };
     Case { text, occ, window, max }
+}
+
+/// byte strings that are mostly NOT valid UTF-8: the model's `validUtf8b` (= the hypothesis `ValidUtf8` of
+/// C35_chars_agree) must decide exactly like `std::str::from_utf8`
+fn utf8_stream(rng: &mut Rng, drv: &mut Driver, sum: &mut Summary, n: usize) {
+    const SPICE: &[&[u8]] = &[&[0xC0, 0xAE], &[0xC1, 0xBF], &[0xE0, 0x80, 0xAE], &[0xE0, 0x9F, 0xBF], &[0xED, 0xA0, 0x80],
+        &[0xED, 0x9F, 0xBF], &[0xF0, 0x8F, 0xBF, 0xBF], &[0xF0, 0x90, 0x80, 0x80], &[0xF4, 0x8F, 0xBF, 0xBF], &[0xF4, 0x90, 0x80, 0x80],
+        &[0xF5, 0x80, 0x80, 0x80], &[0xFF], &[0x80], &[0xBF], &[0xC2], &[0xE2, 0x82], &[0xF0, 0x9F, 0x98], &[0xEF, 0xBF, 0xBF], &[0xC2, 0x80]];
+    for _ in 0..n {
+        let mut b: Vec<u8> = match rng.below(3) {
+            0 => { let k = rng.usize(0, 12); rng.bytes(k) }
+            _ => {
+                let mut t = gen_text(rng, false, false, &mut Summary::default()).into_bytes();
+                let k = rng.usize(0, 40); let mut k = k.min(t.len()); if rng.bool() { while k < t.len() && (t[k] & 0xC0) == 0x80 { k += 1; } } t.truncate(k);
+                t
+            }
+        };
+        for _ in 0..rng.below(3) {
+            let at = rng.usize(0, b.len());
+            match rng.below(3) {
+                0 => { let sp = *rng.pick(SPICE); b.splice(at..at, sp.iter().copied()); }
+                1 => if !b.is_empty() { let at = at.min(b.len() - 1); b[at] = rng.u64() as u8; },
+                _ => if !b.is_empty() { b.remove(at.min(b.len() - 1)); },
+            }
+        }
+        let want = if std::str::from_utf8(&b).is_ok() { "1" } else { "0" };
+        let got = drv.ask(&format!("utf8 {}", hexw(&b)));
+        sum.branch(if want == "1" { "utf8-stream-valid" } else { "utf8-stream-invalid" });
+        if got != want {
+            sum.disagreement("str::from_utf8 vs model validUtf8b", json!({"bytes": hexw(&b)}), &got, want);
+        }
+    }
 }
 
 fn corpus() -> Vec<Case> {
@@ -230,18 +267,20 @@ fn run_case(c: &Case, drv: &mut Option<Driver>, sum: &mut Summary, known: &[Stri
     let imp = show_real(&r);
     let hex = hexw(c.text.as_bytes());
     let occs = show_pairs(&c.occ);
-    let (model, model_orig, wins) = match drv {
+    let (model, model_orig, model_chars, wins) = match drv {
         Some(d) => (
             d.ask(&format!("slices 1 {hex} {occs} {} {}", c.window, c.max)),
             d.ask(&format!("slices 0 {hex} {occs} {} {}", c.window, c.max)),
+            d.ask(&format!("slicesc 1 {hex} {occs} {} {}", c.window, c.max)),
             d.ask(&format!("windows 1 {hex} {occs} {}", c.window)),
         ),
-        None => (String::new(), String::new(), String::new()),
+        None => (String::new(), String::new(), String::new(), String::new()),
     };
     if verbose {
         println!("input : text={:?} occ={occs} window={} max={}", c.text, c.window, c.max);
         println!("impl  : {imp}");
         println!("model : {model}   (code with fixes/C35.diff)");
+        println!("modelC: {model_chars}   (char-level transcription, code with fixes/C35.diff)");
         println!("model0: {model_orig}   (code as found)");
         println!("windows: {wins}");
     }
@@ -282,6 +321,26 @@ fn run_case(c: &Case, drv: &mut Option<Driver>, sum: &mut Summary, known: &[Stri
         } else { "compute_snippet_slices vs model" };
         sum.disagreement(what, case_json(c), &model, &imp);
     }
+    if drv.is_some() && model_chars != model {
+        sum.disagreement("char-level transcription (computeC) vs byte-level model (compute)", case_json(c), &model, &model_chars);
+    }
+    if let Some(d) = drv {
+        // the theorems' hypothesis `ValidUtf8` must accept every Rust &str
+        if d.ask(&format!("utf8 {hex}")) != "1" {
+            sum.disagreement("model's ValidUtf8 rejects a Rust &str", case_json(c), "0", "valid");
+        }
+        // is_char_boundary / prev_char_boundary / next_char_boundary at an index derived from the case
+        let len = c.text.len();
+        let i = c.occ.first().map(|o| o.0).unwrap_or(c.window).min(len + 2);
+        let k = i.min(len);
+        let prev = (0..=k).rev().find(|&j| c.text.is_char_boundary(j)).unwrap();
+        let next = (k..=len).find(|&j| c.text.is_char_boundary(j)).unwrap();
+        let want = format!("{} {prev} {next}", if c.text.is_char_boundary(i) { 1 } else { 0 });
+        let got = d.ask(&format!("boundary {hex} {i}"));
+        if got != want {
+            sum.disagreement("is_char_boundary / floor / ceil vs model", json!({"text_hex": hex, "idx": i}), &got, &want);
+        }
+    }
     let canon = format!("{hex}|{occs}|{}|{}|{imp}", c.window, c.max);
     let nontrivial = !c.text.is_empty() && !c.occ.is_empty() && r.is_ok();
     sum.case(&canon, nontrivial, || json!({"text_len": c.text.len(), "occ": occs, "window": c.window.to_string(), "max": c.max.to_string(), "impl": imp}));
@@ -320,7 +379,7 @@ fn main() {
     sum.expect_branches(&["result-one-slice", "result-several-slices", "count-reaches-max", "windows-merged",
         "occurrence-window-empty-skipped", "fallback-after-all-skipped", "occurrence-inside-a-char", "text-multibyte",
         "occ-empty", "occ-sorted-in-range", "occ-unsorted", "occ-overlapping", "occ-out-of-bounds", "occ-near-usize-max",
-        "window-zero", "max-zero", "slice-strictly-inside-text"]);
+        "window-zero", "max-zero", "slice-strictly-inside-text", "utf8-stream-valid", "utf8-stream-invalid"]);
     if args.mode == "replay" {
         let case = load_replay(args.replay_file.as_ref().expect("replay file"));
         let input = case.get("input").unwrap_or(&case);
@@ -349,6 +408,7 @@ fn main() {
             }
         }
     }
+    if let Some(d) = drv.as_mut() { utf8_stream(&mut rng, d, &mut sum, if args.thorough { 20000 } else { 3000 }); }
     if let Some(d) = &drv { sum.model_requests = d.requests; }
     sum.finish(&args);
 }
